@@ -671,6 +671,15 @@ impl ConfigState {
         if let Some(patch_answers) = patch.http_answers.as_ref() {
             merge_custom_http_answers(&mut listener.http_answers, patch_answers);
         }
+        // Applied by the workers (`update_config`), so recorded here as well:
+        // what the main state does not hold is lost on SaveState, on the
+        // bootstrap of a new worker and on an upgrade.
+        if let Some(v) = patch.elide_x_real_ip {
+            listener.elide_x_real_ip = Some(v);
+        }
+        if let Some(v) = patch.send_x_real_ip {
+            listener.send_x_real_ip = Some(v);
+        }
         // H2 flood knobs
         if let Some(v) = patch.h2_max_rst_stream_per_window {
             listener.h2_max_rst_stream_per_window = Some(v);
@@ -752,6 +761,9 @@ impl ConfigState {
         if let Some(ref v) = patch.sozu_id_header {
             validate_sozu_id_header(v)?;
         }
+        if let Some(ref v) = patch.hsts {
+            validate_hsts_patch(v)?;
+        }
 
         let address: SocketAddr = patch.address.into();
         let listener =
@@ -786,6 +798,18 @@ impl ConfigState {
         }
         if let Some(patch_answers) = patch.http_answers.as_ref() {
             merge_custom_http_answers(&mut listener.http_answers, patch_answers);
+        }
+        // Applied by the workers (`update_config`), so recorded here as well:
+        // what the main state does not hold is lost on SaveState, on the
+        // bootstrap of a new worker and on an upgrade.
+        if let Some(v) = patch.elide_x_real_ip {
+            listener.elide_x_real_ip = Some(v);
+        }
+        if let Some(v) = patch.send_x_real_ip {
+            listener.send_x_real_ip = Some(v);
+        }
+        if let Some(v) = patch.hsts {
+            listener.hsts = Some(v);
         }
         // HTTPS-only knobs
         if let Some(ref alpn_wrapper) = patch.alpn_protocols {
@@ -2788,6 +2812,20 @@ pub fn validate_alpn_protocols(values: &[String]) -> Result<(), StateError> {
                 reason: "each value must be \"h2\" or \"http/1.1\"",
             });
         }
+    }
+    Ok(())
+}
+
+/// A listener-level HSTS patch replaces the whole block and must say whether
+/// it enables or disables the policy: `enabled` is required (the workers
+/// refuse the patch with `HstsEnabledRequired` otherwise, so the main state
+/// refuses it too rather than recording what no worker applied).
+pub fn validate_hsts_patch(hsts: &crate::proto::command::HstsConfig) -> Result<(), StateError> {
+    if hsts.enabled.is_none() {
+        return Err(StateError::InvalidValue {
+            field: "hsts.enabled",
+            reason: "must be set (true or false) in a listener HSTS patch",
+        });
     }
     Ok(())
 }
